@@ -302,6 +302,8 @@ def run(ctx):
                           f"the links for which f2(edge, other_end) is true give {want}")
     from rules import hist
     hist.run(ctx, res, 'C04')       # composition: histories through the public API against the reference model (rules/hist.py)
+    from rules import scale
+    scale.run(ctx, res, 'C04')      # the same on graphs whose collections have the sizes the tree names (rules/scale.py)
     common.vacuity(res, "HISTORY", 9000)
     common.vacuity(res, "TABLE", 900)
     res.explanation = ("Every abstract input class of neighbors() (540 single-link rows, their FORWARD/BACKWARD mirror images, and ordered pairs of "
